@@ -13,6 +13,7 @@ const preludeCommon = `
 (declare-datatypes ((Ref 0)) (((null) (obj (oid Int)) (elem (ebase Int) (eidx Int)) (fld (fbase Ref) (fidx Int)) (glob (gid Int)))))
 (declare-datatypes ((Slice 0)) (((mkslice (sbase Int) (soff Int) (slen Int) (scap Int)))))
 (declare-sort Iface 0)
+(declare-sort Bytes 0)
 (declare-const inil Iface)
 (declare-fun itag (Iface) Int)
 (assert (= (itag inil) 0))
@@ -40,7 +41,7 @@ const preludeCommon = `
 (define-fun inu8 ((x Int)) Bool (and (<= 0 x) (<= x 255)))
 (define-fun godiv ((a Int) (b Int)) Int (ite (>= a 0) (ite (> b 0) (div a b) (- (div a (- b)))) (ite (> b 0) (- (div (- a) b)) (div (- a) (- b)))))
 (define-fun gomod ((a Int) (b Int)) Int (- a (* b (godiv a b))))
-(define-fun validslice ((s Slice)) Bool (and (>= (slen s) 0) (>= (soff s) 0) (>= (scap s) (slen s)) (>= (sbase s) 0) (=> (= (sbase s) 0) (= s nilslice))))
+(define-fun validslice ((s Slice)) Bool (and (<= (scap s) 9223372036854775807) (>= (slen s) 0) (>= (soff s) 0) (>= (scap s) (slen s)) (>= (sbase s) 0) (=> (= (sbase s) 0) (= s nilslice))))
 `
 
 const preludeStrAbstract = `
@@ -87,7 +88,7 @@ type smtCtx struct {
 
 func newSmtCtx(strMode bool) *smtCtx {
 	return &smtCtx{declared: map[string]bool{}, svSort: map[string]string{}, strLits: map[string]string{},
-		strMode: strMode, typeTags: map[string]int{}, boxFns: map[string]bool{}, sorts: map[string]bool{}, globals: map[string]int{},
+		strMode: strMode, typeTags: map[string]int{}, boxFns: map[string]bool{}, sorts: map[string]bool{"Bytes": true}, globals: map[string]int{},
 		ufuncs: map[string]string{}}
 }
 
